@@ -101,6 +101,22 @@ func init() {
 			"transformations not covered: prefix_objects_names, fields_set_default (map-ordered), hint_object, omit/omit_fields/duplicate_object filters unless listed in functions_under_contract",
 		},
 	}
+	propSpecs["C17"] = &PropSpec{
+		ID:       "C17",
+		Patterns: []string{"./internal/ast", "./internal/orderedmap", "./internal/tools", "./internal/veneers/..."},
+		Level:    "proof",
+		Prepare:  func(e *Engine) { e.assumeKindInv = true },
+		Funcs:    func(e *Engine) []string { return []string{"tools.StringInListEqualFold"} },
+		Opts: func(e *Engine, key string) VerifyOpts {
+			return VerifyOpts{OnlyKinds: []string{"pre", "post", "frame", "inv-init", "inv-pres", "cover"}}
+		},
+		Assumptions: []string{
+			"scope: rule contracts of the builder rules omit / rename, the option actions rename / omit / duplicate / add_comments / array_to_append / map_to_index / unfold_boolean and the by-name selectors: each states what comes back for a selected builder/option (including what is kept: arguments, assignments, target paths, defaults) and that non-applicable inputs come back unchanged",
+			"NOT covered by this check: the rewriter glue (Rewriter.ApplyTo / applyBuilderRules / applyOptionRules) that applies rules behind selectors, sequences of rules, path well-typedness after MakePath, and the remaining rules (merge_into, compose, duplicate builder, properties, initialize, promote_to_constructor, add_option, add_factory, struct_fields_as_*, disjunction_as_options, rename_arguments, add_assignment)",
+			"selectors are values of a `pure` function type: their answer is a function of the selector value and the argument values",
+			"appends may write into spare capacity of an existing backing array (`modifies spare-capacity`): assumed unobservable; panic-freedom of the same closures is C04's claim",
+		},
+	}
 	propSpecs["C03"] = &PropSpec{
 		ID:       "C03",
 		Patterns: []string{"./..."},
